@@ -14,6 +14,7 @@ let () =
   | _ :: "eval" :: _ -> L_eval.run ()
   | _ :: "evallex" :: _ -> L_eval.run_lexical ()
   | _ :: "typing" :: _ -> L_eval.run_typing ()
+  | _ :: "strat" :: _ -> L_eval.run_strat ()
   | _ ->
       prerr_endline "usage: oalmodel <layer>";
       exit 2
